@@ -78,6 +78,7 @@ type Explorer struct {
 	docs     []*docNode
 	s2       map[string]*Stage2
 	fnFuel   map[string]int
+	pcDirty  bool
 }
 
 type holeRec struct {
@@ -167,6 +168,7 @@ func (e *Explorer) decide(c sym) bool {
 		e.push(c, d)
 		return d
 	}
+	e.settle()
 	e.res.Forks++
 	rt, _ := e.check(c.t)
 	var d bool
@@ -235,8 +237,17 @@ func (e *Explorer) assume(c sym) {
 	if c.t == "false" {
 		panic(infeasibleErr{})
 	}
-	// The path must stay feasible; an infeasible assumption ends it (vacuity is tracked by
-	// Cover tags reached, not by paths started).
+	// The path must stay feasible; feasibility is re-established lazily (one query for a
+	// run of consecutive assumptions) before the next fork, check or cover.
+	e.pcDirty = true
+}
+
+// settle verifies that the path condition is still satisfiable after assumptions.
+func (e *Explorer) settle() {
+	if !e.pcDirty {
+		return
+	}
+	e.pcDirty = false
 	if r, _ := e.check(); r == "unsat" {
 		panic(infeasibleErr{})
 	}
@@ -249,6 +260,7 @@ type devCond struct {
 }
 
 func (e *Explorer) checkProp(id string, cond sym, devs []devCond) {
+	e.settle()
 	cr := CheckResult{ID: id}
 	defer func() { e.res.Checks = append(e.res.Checks, cr) }()
 	if cond.t == "true" {
@@ -403,6 +415,10 @@ func (m *Machine) Explore(fnName string, opts ExploreOpts) (*Pool, SolverStats, 
 	}
 	if opts.MaxSteps == 0 {
 		opts.MaxSteps = 3_000_000
+	}
+	gridBits = 0
+	if g, ok := opts.Params["GRID"]; ok && g >= 0 {
+		gridBits = g
 	}
 	p := &Pool{MaxPath: opts.MaxPaths, Started: time.Now(), Budget: opts.Budget}
 	p.cond = sync.NewCond(&p.mu)
